@@ -119,6 +119,158 @@ static void run_c01 (void)
 		}
 }
 
+/* =================================================================== C04 */
+
+/* write N frames in the given split (0: one call, 1: 1 + rest, 2: B-1 + rest [B<=1: 2 + rest]) ; returns frames accepted, -1 open failure */
+static long c04_write (const Fmt *f, int ch, int rate, sf_count_t open_frames, int type, long N, int split, int B, int *close_rc)
+{	SF_INFO info ; SNDFILE *sf ; long items = N * ch, done = 0, first ; void *buf ;
+	md_reset (&rt_dev) ;
+	rt_info (&info, f, ch, rate) ; info.frames = open_frames ;
+	sf = md_open (&rt_dev, SFM_WRITE, &info) ;
+	if (sf == NULL) return -1 ;
+	buf = malloc (items * type_size [type] + 1) ;
+	gen_fill (G_POSCODE, type, buf, items, f->width ? f->width : 16, f->is_float) ;
+	first = split == 0 ? N : split == 1 ? 1 : (B > 1 ? B - 1 : 2) ;
+	if (first > N) first = N ;
+	if (first > 0)
+	{	sf_count_t w = vl_write (sf, type, 1, buf, first) ;
+		done += w > 0 ? w : 0 ;
+		}
+	if (N - first > 0 && done == first)
+	{	sf_count_t w = vl_write (sf, type, 0, (char *) buf + first * ch * type_size [type], (N - first) * ch) ;
+		done += w > 0 ? w / ch : 0 ;
+		}
+	INLIB (*close_rc = sf_close (sf)) ;
+	free (buf) ;
+	return done ;
+}
+
+static void c04_case (const Fmt *f, int ch, int rate, sf_count_t open_frames, int type, long N, int split)
+{	int B = fmt_block (f, ch, rate), close_rc = 0, major = f->format & SF_FORMAT_TYPEMASK ;
+	long acc ; SF_INFO rinfo ; SNDFILE *sf ; char sigp [128] ; uint64_t out = VL_H0, base_hash = 0 ;
+	const char *rcls = rate == fmt_default_rate (f) ? "rate-def" : rate < 10 ? "rate<10" : rate >= (1 << 30) ? "rate>=2^30" :
+						fmt_rate_representable (f, rate, ch) ? "rate-repr" : "rate-unrepr" ;
+
+	/* the rate class is part of the signature only for the non-default rates (those cases exist only for N in {0,3}) */
+	if (rate == fmt_default_rate (f))
+		snprintf (sigp, sizeof (sigp), "%s|%s|%s", rt_fam (f), ch == 1 ? "ch1" : "chN", rt_nclass (N, B)) ;
+	else
+		snprintf (sigp, sizeof (sigp), "%s|%s", major_name (f->format), rcls) ;
+
+	if (open_frames != 0)
+	{	/* reference bytes: the same writes with frames = 0 at open */
+		acc = c04_write (f, ch, rate, 0, type, N, split, B, &close_rc) ;
+		base_hash = md_hash (&rt_dev) ;
+		}
+	acc = c04_write (f, ch, rate, open_frames, type, N, split, B, &close_rc) ;
+	if (acc < 0)
+	{	vl_note ("write-open refused: %s", sf_strerror (NULL)) ; vl_end (0, 2) ; return ; }
+	if (acc != N)
+		vl_violation (rt_sig ("%s|write-count", sigp), "write calls accepted %ld of %ld frames", acc, N) ;
+	if (close_rc != 0) vl_violation (rt_sig ("%s|close-nonzero", sigp), "sf_close returned %d", close_rc) ;
+	if (open_frames != 0 && md_hash (&rt_dev) != base_hash)
+		vl_violation (rt_sig ("%s|open-frames-influence", sigp), "file bytes differ when SF_INFO.frames=%lld is passed at open", (long long) open_frames) ;
+	out = vl_hash_u64 (md_hash (&rt_dev), out) ;
+
+	md_rewind (&rt_dev) ;
+	rt_info_read (&rinfo, f, ch, rate) ;
+	rt_dev.budget = 64 + 64 * (rt_dev.len + 8 * (acc + 8) * ch * 4) ;
+	sf = md_open (&rt_dev, SFM_READ, &rinfo) ;
+	if (sf == NULL)
+	{	vl_violation (rt_sig ("%s|reopen-failed", sigp), "re-open failed: %s", sf_strerror (NULL)) ;
+		vl_end (1, out) ; return ;
+		}
+	rt_dump_log (sf) ;
+	if (rinfo.channels != ch) vl_violation (rt_sig ("%s|channels", sigp), "channels %d != %d", rinfo.channels, ch) ;
+	if ((rinfo.format & (SF_FORMAT_TYPEMASK | SF_FORMAT_SUBMASK)) != (f->format & (SF_FORMAT_TYPEMASK | SF_FORMAT_SUBMASK)))
+		vl_violation (rt_sig ("%s|format", sigp), "format 0x%x != 0x%x", rinfo.format, f->format) ;
+	{	int req_end = f->format & SF_FORMAT_ENDMASK, got_end = rinfo.format & SF_FORMAT_ENDMASK ;
+		if (req_end == SF_ENDIAN_CPU) req_end = SF_ENDIAN_LITTLE ;
+		if (req_end != SF_ENDIAN_FILE && got_end != SF_ENDIAN_FILE && major != SF_FORMAT_RAW && req_end != got_end)
+			vl_violation (rt_sig ("%s|endian", sigp), "endian bits 0x%x != requested 0x%x", got_end, req_end) ;
+		}
+	if (major != SF_FORMAT_RAW)
+	{	if (fmt_rate_representable (f, rate, ch))
+		{	if (rinfo.samplerate != rate)
+				vl_violation (rt_sig ("%s|samplerate", sigp), "samplerate %d != requested %d", rinfo.samplerate, rate) ;
+			}
+		else if (rinfo.samplerate < 1)
+			vl_violation (rt_sig ("%s|samplerate<1", sigp), "samplerate %d for requested %d", rinfo.samplerate, rate) ;
+		}
+	if (acc == N)
+	{	long F = rinfo.frames ; int ok ;
+		if (B == 0)
+			ok = (major == SF_FORMAT_RAW) ? F >= N : F == N ;
+		else if (B == 1)
+		{	int bw = f->is_float ? f->is_float / 8 : f->width ? (f->width + 7) / 8 : 1 ;
+			int odd = ((N * bw * ch) & 1) && f->pads_odd ;
+			ok = (F == N) || (odd && F == N + 1) ;
+			}
+		else
+			ok = (F >= N && F < N + B) ;
+		if (! ok)
+			vl_violation (rt_sig ("%s|frames%s", sigp, F < N ? "<N" : F == N + 1 ? "=N+1" : ">N"), "frames=%ld after writing N=%ld (block %d)", F, N, B) ;
+		/* reading delivers exactly F frames then EOF, with each read type */
+		for (int t = 0 ; t < T_NTYPES ; t++)
+		{	long total = 0, got ; void *rb = malloc (1000 * ch * 8) ;
+			sf_count_t pos ; INLIB (pos = sf_seek (sf, 0, SEEK_SET)) ;
+			if (pos != 0 && t > 0) { free (rb) ; break ; }
+			while ((got = vl_read (sf, t, 1, rb, 1000)) > 0 && total <= F + 2000) total += got ;
+			if (total != F)
+			{	vl_violation (rt_sig ("%s|readable%s", sigp, total < F ? "<F" : ">F"), "%s reads delivered %ld frames, header says %ld (N=%ld)", type_names [t], total, F, N) ;
+				free (rb) ; break ;
+				}
+			got = vl_read (sf, t, 1, rb, 3) ;
+			if (got != 0) vl_violation (rt_sig ("%s|read-after-eof", sigp), "read after EOF returned %ld", got) ;
+			out = vl_hash_u64 (total, out) ;
+			free (rb) ;
+			}
+		}
+	INLIB (sf_close (sf)) ;
+	vl_end (1, out) ;
+}
+
+void run_c04 (void)
+{	static const int rates [] = { 1, 2, 7, 4000, 8000, 11025, 44100, 96000, 192000, 10000000, 1000000001,
+		255, 256, 257, 32767, 32768, 32769, 65535, 65536, 65537, 1048575, 1048576, 1048577, 2097151, 2097152, 2097153,
+		8388607, 8388608, 8388609, 16777215, 16777216, 16777217, 1073741823, 1073741824, 1073741825, 2147483647, 40000, 50000, 0 } ;
+	static const sf_count_t open_frames [] = { 777, -5, (sf_count_t) 1 << 40, 0 } ;
+	static const int chs [] = { 1, 2, 5, 0 } ;
+
+	for (int fi = 0 ; fi < fmt_count ; fi++)
+	{	const Fmt *f = &fmt_list [fi] ;
+		if (f->needs_path) continue ;
+		if (! vl_opts.thorough && (f->format & SF_FORMAT_ENDMASK) == SF_ENDIAN_CPU) continue ;
+		for (const int *pc = chs ; *pc ; pc++)
+		{	int ch = *pc, rate = fmt_default_rate (f) ;
+			long lens [40] ; int nl ;
+			if (! rt_accepts (f, ch, rate)) continue ;
+			if (ch == 5 && ! vl_opts.thorough && (f->format & SF_FORMAT_ENDMASK) != SF_ENDIAN_FILE) continue ;
+			int B = fmt_block (f, ch, rate) ;
+			nl = rt_len_alphabet (lens, B, 2048, ch, vl_opts.thorough) ;
+			for (int li = 0 ; li < nl ; li++)
+				for (int split = 0 ; split < 3 ; split++)
+				{	int type = (li + split + ch) % T_NTYPES ;
+					if (lens [li] < 2 && split > 0) continue ;
+					if (vl_case ("C04 fmt=%s ch=%d rate=%d openframes=0 type=%s N=%ld split=%d", f->name, ch, rate, type_names [type], lens [li], split))
+					{	vl_root_count (f->name) ; c04_case (f, ch, rate, 0, type, lens [li], split) ; }
+					}
+			for (int ri = 0 ; rates [ri] && f->rate_kind != RATE_NONE ; ri++)
+				for (int n = 0 ; n <= 3 ; n += 3)
+				{	if (! rt_accepts (f, ch, rates [ri])) continue ;
+					if (vl_case ("C04 fmt=%s ch=%d rate=%d openframes=0 type=short N=%d split=0", f->name, ch, rates [ri], n))
+					{	vl_root_count (f->name) ; c04_case (f, ch, rates [ri], 0, T_SHORT, n, 0) ; }
+					}
+			for (int oi = 0 ; open_frames [oi] ; oi++)
+			{	long ns [3] = { 0, 3, B > 1 ? B + 1 : 257 } ;
+				for (int k = 0 ; k < 3 ; k++)
+					if (vl_case ("C04 fmt=%s ch=%d rate=%d openframes=%lld type=int N=%ld split=1", f->name, ch, rate, (long long) open_frames [oi], ns [k]))
+					{	vl_root_count (f->name) ; c04_case (f, ch, rate, open_frames [oi], T_INT, ns [k], 1) ; }
+				}
+			}
+		}
+}
+
 /* =================================================================== dispatch */
 
 void run_c04 (void) ;
@@ -135,6 +287,5 @@ void harness_run (void)
 	else { fprintf (stderr, "h_rt: unknown property %s\n", vl_opts.prop) ; exit (3) ; }
 }
 
-void run_c04 (void) { }
 void run_c07 (void) { }
 void run_c10 (void) { }
